@@ -38,7 +38,7 @@ var configs6 = [][]string{{"LL", "00:de:ad:be:ef:00"}, {"llt", "00:de:ad:be:ef:0
 var configs4 = [][]string{{"192.0.2.1"}, {"::ffff:192.0.2.1"}, {"10.255.255.254"}}
 
 func run(r *ev.Run) {
-	r.Rule("E3, one process per server_id configuration. v6: configured DUID {LL,LLT x 2 MAC spellings} x message type {0..14,255} x Server Identifier {absent, equal, same MAC other DUID kind, other MAC, EN, UUID, equal-prefix-longer, equal-prefix-shorter} x relay depth 0..2, both as a direct handler call (all types) and through HandleMsg6 (supported types, reply bytes inspected). v4: server_id {dotted, v4-mapped, other} x siaddr {0, own, other} x option 54 {absent, own, other, 0.0.0.0 (not asserted)} x {DISCOVER, REQUEST} through HandleMsg4. Reference: RFC 8415 s.16 table / the statement's v4 rule. Class = proto/type/sid variant/outcome.")
+	r.Rule("E3, one process per server_id configuration. v6: configured DUID {LL,LLT x 2 MAC spellings} x message type {0..14,255} x Server Identifier {absent, equal, same MAC other DUID kind, other MAC, EN, UUID, equal-prefix-longer, equal-prefix-shorter, EN of 130/131/200 octets, LL of 1000, unknown type of 500, own padded to 131/300} x relay depth 0..2, both as a direct handler call (all types) and through HandleMsg6 (supported types, reply bytes inspected). v4: server_id {dotted, v4-mapped, other} x siaddr {0, own, other} x option 54 {absent, own, other, 0.0.0.0 (not asserted)} x {DISCOVER, REQUEST} through HandleMsg4. Reference: RFC 8415 s.16 table / the statement's v4 rule. Class = proto/type/sid variant/outcome.")
 	r.Assume("requests with several Server Identifier options and option 54 = 0.0.0.0 are enumerated but not asserted")
 	for _, a := range configs6 {
 		res := reg.Spawn(r, "C14", 15*time.Minute, append([]string{"6"}, a...)...)
@@ -102,6 +102,15 @@ func run6(r *ev.Run, args []string) {
 		{"uuid", append([]byte{0, 4}, bytes.Repeat([]byte{7}, 16)...)},
 		{"longer", append(append([]byte{}, own...), 0)},
 		{"shorter", own[:len(own)-1]},
+		// sizes around and far beyond the RFC 8415 s.11.1 maximum of 130 octets: however long,
+		// an identifier that is not ours never makes the message ours
+		{"en-130", append([]byte{0, 2, 0, 0, 0x9, 0xbf}, bytes.Repeat([]byte{0x5a}, 124)...)},
+		{"en-131", append([]byte{0, 2, 0, 0, 0x9, 0xbf}, bytes.Repeat([]byte{0x5a}, 125)...)},
+		{"en-200", append([]byte{0, 2, 0, 0, 0x9, 0xbf}, bytes.Repeat([]byte{0x5a}, 194)...)},
+		{"ll-1000", append([]byte{0, 3, 0, 1}, bytes.Repeat([]byte{0x02}, 996)...)},
+		{"unknown-type-500", append([]byte{0, 0xff}, bytes.Repeat([]byte{0x11}, 498)...)},
+		{"own-padded-to-131", append(append([]byte{}, own...), make([]byte, 131-len(own))...)},
+		{"own-padded-to-300", append(append([]byte{}, own...), make([]byte, 300-len(own))...)},
 	}
 	maxDepth := 1
 	if reg.Tier == "thorough" {
